@@ -1248,3 +1248,46 @@ package flyt
 //@   ensures [C19] forall j int :: 0 <= j && j < len(baseAcc) ==> 0 <= bidx[j] && bidx[j] < len(opts) && baseAcc[j] == asBaseOpt(opts[bidx[j]])
 //@   ensures [C19] forall j int :: forall k int :: 0 <= j && j < k && k < len(baseAcc) ==> bidx[j] < bidx[k]
 //@   ensures [C19] forall m int :: 0 <= m && m < len(opts) && isBaseOpt(opts[m]) ==> 0 <= inv[m] && inv[m] < len(baseAcc) && bidx[inv[m]] == m
+
+// ---------------------------------------------------------------------------
+// Lemmas over contracts (machine-checked implications; the hypotheses name the verified clauses they stand for)
+// ---------------------------------------------------------------------------
+
+// L3: pooled batch tasks settle their slots independently of the order in which they finish.
+//   A / B   : the results array before / after task t finishes      done : tasks finished before
+//   post[k] : what task k's postcondition demands of slot k (runBatchConcurrent$1/ensures#2, #4)
+//   hypothesis 2 is the task's frame (runBatchConcurrent$1/ensures#1: only raw(results, off+idx) changes);
+//   "one task per index, bound to (i, items[i], results)" is runBatchConcurrent/call:(*WorkerPool).Submit#1/monitor.
+//@ lemma L3step(A [int]Result, B [int]Result, done set[int], t int, post [int]Result)
+//@   requires forall k int :: has(done, k) ==> A[k] == post[k]
+//@   requires forall k int :: k != t ==> B[k] == A[k]
+//@   requires B[t] == post[t]
+//@   ensures [C06,C07,C09,C11] forall k int :: (has(done, k) || k == t) ==> B[k] == post[k]
+// after pool.Wait() every submitted task has finished (L2barrier + T2), so every slot satisfies its task's postcondition
+//@ lemma L3final(B [int]Result, done set[int], n int, post [int]Result)
+//@   requires forall k int :: has(done, k) ==> B[k] == post[k]
+//@   requires forall k int :: 0 <= k && k < n ==> has(done, k)
+//@   ensures [C06,C07,C09,C11] forall k int :: 0 <= k && k < n ==> B[k] == post[k]
+
+// L2: the pool as a counter system. queued = wrappers in the channel, busy = workers inside a task,
+//   wg = WaitGroup counter, workers = goroutines spawned (NewWorkerPool/ensures: spawned == poolSize).
+//   submit : (*WorkerPool).Submit/ensures#1 (one Add(1) before one blocking send)
+//   take   : (*WorkerPool).worker monitors (a worker receives only when it is not inside a task: pending is false at every select)
+//   finish : (*WorkerPool).Submit$1/ensures#1 (task once, then Done once, deferred) and worker's "each received task once"
+//@ spec func poolInv(queued int, busy int, wg int, workers int) bool = queued >= 0 && busy >= 0 && busy <= workers && wg == queued + busy
+//@ lemma L2submit(queued int, busy int, wg int, workers int)
+//@   requires poolInv(queued, busy, wg, workers)
+//@   ensures [C08,C12] poolInv(queued + 1, busy, wg + 1, workers)
+//@ lemma L2take(queued int, busy int, wg int, workers int)
+//@   requires poolInv(queued, busy, wg, workers) && queued > 0 && busy < workers
+//@   ensures [C08,C12] poolInv(queued - 1, busy + 1, wg, workers)
+//@ lemma L2finish(queued int, busy int, wg int, workers int)
+//@   requires poolInv(queued, busy, wg, workers) && busy > 0
+//@   ensures [C08,C12] poolInv(queued, busy - 1, wg - 1, workers)
+// the bound (C08) and the barrier (C12): never more than `workers` tasks in flight; Wait returning (wg == 0, T2) means nothing is queued or running
+//@ lemma L2bound(queued int, busy int, wg int, workers int)
+//@   requires poolInv(queued, busy, wg, workers)
+//@   ensures [C08] busy <= workers
+//@ lemma L2barrier(queued int, busy int, wg int, workers int)
+//@   requires poolInv(queued, busy, wg, workers) && wg == 0
+//@   ensures [C12,C06,C07] queued == 0 && busy == 0
